@@ -86,3 +86,78 @@ Section LosslessFull.
     - apply Hfit. intros H. rewrite H in E. discriminate E.
   Qed.
 End LosslessFull.
+
+(* ------------- the entry point: decode_frame_model after an accepted encode *)
+(* with the parameters of an accepted encoding none of decode_frame's own
+   refusals fires and no plane re-ordering happens: it is the path decoder *)
+Lemma entry_native : forall p f bs,
+  native_ts p -> encode_frame default_tables p f = Ok bs ->
+  decode_frame_model p 0 bs = decode_native p 0 bs.
+Proof.
+  intros p f bs Hn He.
+  apply encode_frame_Ok in He. destruct He as [Hc ->].
+  destruct (check_None_native p _ _ Hn Hc) as (Hcc & Hcn & _).
+  destruct (check_common_None _ _ Hcc) as (_ & Hpr & Hpi & Hpl).
+  destruct (check_native_None _ Hcn) as (Hspp & Hpl3 & _).
+  unfold decode_frame_model, decode_native.
+  rewrite (proj2 (is_native_default p) Hn). cbn [andb].
+  destruct (p_balloc p =? 1) eqn:B1; [reflexivity|].
+  replace (negb ((p_pixrep p =? 0) || (p_pixrep p =? 1))) with false by lia.
+  replace (is_none (p_pi p)) with false by (destruct (p_pi p); [reflexivity|congruence]).
+  assert (Hts : ts_eqb (p_ts p) TRLE = false) by (destruct Hn as [-> | ->]; reflexivity).
+  destruct Hspp as [S1|S3].
+  - replace (1 <? spp p) with false by lia. cbn [andb]. rewrite Hts.
+    destruct (decode_words p _) as [[sh vals|raw]|e]; reflexivity.
+  - rewrite (Hpl3 S3). cbn [is_none optZ_eqb]. change (0 =? 0) with true. change (0 =? 1) with false.
+    cbn [orb negb andb]. rewrite !andb_false_r. cbn [andb]. rewrite Hts.
+    destruct (decode_words p _) as [[sh vals|raw]|e]; reflexivity.
+Qed.
+
+Theorem entry_native_roundtrip : forall p f bs,
+  native_ts p ->
+  encode_frame default_tables p f = Ok bs ->
+  Z.of_nat (length f) = npix p -> p_dsize p <= 8 -> values_fit p f ->
+  (spp p = 3 -> p_balloc p <> 1 -> p_pi p <> Some YBR_FULL) ->
+  decode_frame_model p 0 bs = Ok (DArr (out_shape p) f).
+Proof.
+  intros p f bs Hn He Hlen Hds Hfit G.
+  rewrite (entry_native p f bs Hn He). now apply native_roundtrip_partial.
+Qed.
+
+Theorem entry_rle_roundtrip : forall p f bs,
+  p_ts p = TRLE ->
+  encode_rle default_tables p f = Ok bs ->
+  open_gap p = false -> Z.of_nat (length f) = npix p ->
+  decode_frame_model p 0 bs = Ok (DArr (out_shape p) f).
+Proof.
+  intros p f bs Hts He Hg Hlen.
+  rewrite <- (rle_roundtrip_full p f bs Hts He Hg Hlen).
+  unfold encode_rle in He.
+  destruct (check default_tables p (list_min f) (list_max f)) eqn:Hc; [discriminate|].
+  destruct (rle_check_facts p _ _ Hts Hc) as (Hspp & _ & _ & _ & _ & _ & Hpr & Hpl).
+  assert (Hcc : check_common default_tables p = None).
+  { unfold check, check_cascade, check_hd in Hc. destruct (check_common default_tables p); [discriminate|reflexivity]. }
+  destruct (check_common_None _ _ Hcc) as (_ & _ & Hpi & Hpl').
+  unfold decode_frame_model.
+  replace (is_native default_tables p) with false by (unfold is_native; rewrite Hts; reflexivity).
+  cbn [andb].
+  replace (negb ((p_pixrep p =? 0) || (p_pixrep p =? 1))) with false by lia.
+  replace (is_none (p_pi p)) with false by (destruct (p_pi p); [reflexivity|congruence]).
+  rewrite Hts. change (ts_eqb TRLE TRLE) with true.
+  destruct (1 <? spp p) eqn:S1; cbn [andb]; [|reflexivity].
+  assert (Hnd : p_ndim3 p = true) by (unfold spp in S1; destruct (p_ndim3 p); [reflexivity|discriminate]).
+  destruct (Hpl' Hnd) as [-> | ->]; reflexivity.
+Qed.
+
+(* the guard of fix 6c3f345 (D70) is necessary: without it (all other checks
+   pass) pydicom narrows the samples to one byte but writes two segments, and
+   the stream cannot be decoded *)
+Lemma rle_guard_d70_necessary : exists p f bs,
+  check_pydicom default_tables p = None /\ check_profile default_tables p = None
+  /\ values_fit p f /\ rle_encode_frame p f = Ok bs /\ decode_rle p bs = Err ERT.
+Proof.
+  exists (mkP TRLE 1 2 false 0 16 8 (Some MONO2) 0 None KUInt 2), [1; 2]. eexists.
+  split; [reflexivity|]. split; [reflexivity|].
+  split; [unfold values_fit; repeat constructor; cbn; lia|].
+  split; vm_compute; reflexivity.
+Qed.
